@@ -197,7 +197,7 @@ MANIFEST = {
             "end of each scenario (every module deregistered, context released, all references dropped): no "
             "library-owned descriptor open, a user descriptor closed exactly once iff registered with auto-close and "
             "never while its source was registered and its module not stopped, never a close() of a descriptor that "
-            "is not open; CBMC's pointer checks on top (a source destructor touching a freed module shows up there)",
+            "is not open; CBMC's pointer checks on top (a source destructor touching a freed module shows up there); three sources of one kind registered middle/low/high with the middle one leaving",
     "note": "flags, kinds, routes and call order are per-job constants: any symbolic bit in a source's flag word "
             "(AUTOCLOSE, ONESHOT, TMR_ABSOLUTE) or a symbolic timer period / signal number / pid gave no verdict in "
             "150 s (10 s concrete), so the quantifier over flag mixes is an enumeration; free per job are only errno left "
